@@ -208,19 +208,19 @@ PROPS = {
     "C30": simprop(scenarios.c30, ["C30"], {"listener": 20, "offered": 10, "offeredmiss": 5, "requestedmiss": 10, "final": 30},
                    spec="Trace_Worker", mc=None, norm=tracenorm.normalise_worker),
     "C31": simprop(scenarios.c31, ["C31"], {"sleep": 2000}, spec="Trace_Worker", mc=None, norm=tracenorm.normalise_worker, keep_sleep=True),
-    "C28": graphprop("WriterInst", "WriterInst", ["MC_WriterInst.cfg"],
+    "C28": graphprop("WriterInst", "WriterInst", ["MC_WriterInst.cfg", "MC_WriterInst_walk.cfg"],
                      ["register:new", "register:idempotent", "register:not-enabled", "register:keyless", "unregister:unknown",
                       "unregister:registered", "unregister:keyless", "unregister:not-enabled", "dispose:unknown", "dispose:registered",
                       "dispose:keyless", "dispose:not-enabled", "write:implicit-registration", "write:not-enabled",
                       "lookup:registered", "lookup:unknown", "lookup:not-enabled", "enable"],
                      "DataWriterAsync on a keyed and a keyless type, created enabled or not enabled, driven inside the deterministic simulation"),
-    "C37": graphprop("Qos", "MC_Qos", ["MC_Qos_%s.cfg" % k for k in ("writer", "reader", "topic", "publisher", "subscriber", "participant")],
+    "C37": graphprop("Qos", "MC_Qos", ["MC_Qos_%s.cfg" % k for k in ("writer", "reader", "topic", "publisher", "subscriber", "participant", "writer_walk", "reader_walk")],
                      ["create:accepted", "create:inconsistent", "set:inconsistent", "set:immutable", "set:accepted-mutable",
                       "set:accepted-immutable-before-enable", "set:inconsistent-and-immutable", "enable", "setdefault:immutable", "setdefault:accepted-mutable"],
                      "entity under test on one participant, announced QoS read from the built-in readers of a second participant, both inside the deterministic simulation"),
     "C26": simprop(scenarios.c26, ["C26"], {"scenarios": 30, "presented": 30, "withheld": 30, "finals": 30, "mixedfinal": 15}, spec="Trace_Filter", mc=None,
                    norm=tracenorm.normalise_filter),
-    "C36": graphprop("Entities", "Entities", ["MC_Entities.cfg"],
+    "C36": graphprop("Entities", "Entities", ["MC_Entities.cfg", "MC_Entities_walk.cfg"],
                      ["delete:not-empty", "delete:topic-in-use", "delete:already-deleted", "use:deleted-entity", "delete-contained",
                       "delete:wrong-parent", "create:parent-deleted", "delete:topic-related-to-content-filtered-topic"],
                      "entity tree driven through the public async API inside the deterministic simulation (no network traffic needed)"),
@@ -228,7 +228,7 @@ PROPS = {
                      "entity tree driven through the async API after warming the 8-bit publisher/subscriber counters to 254"),
     "C38": graphprop("FragSize", "FragSize", ["MC_FragSize.cfg"], ["set:accepted", "set:rejected"],
                      "public RtpsUdpTransportParticipantFactory API"),
-    "C32": combine(graphprop("StatusWait", "StatusWait", ["MC_StatusWait.cfg"],
+    "C32": combine(graphprop("StatusWait", "StatusWait", ["MC_StatusWait.cfg", "MC_StatusWait_walk.cfg"],
                              ["setenabled:releases-registered-waiter", "await:released", "await:waiting", "register"],
                              "DcpsStatusCondition driven through the cfg(dust_dds_verif) re-export with real notification channels"),
                    simprop(scenarios.c32, ["C32"], {"waits": 20, "waitwoken": 10}, spec="Trace_Worker", mc=None,
@@ -533,7 +533,7 @@ PROPS["C01"] = _c01()
 
 
 def _c34():
-    g = graphprop("Channels", "Channels", ["MC_Channels_oneshot.cfg", "MC_Channels_mpsc.cfg", "MC_Channels_notification.cfg"],
+    g = graphprop("Channels", "Channels", ["MC_Channels_oneshot.cfg", "MC_Channels_mpsc.cfg", "MC_Channels_notification.cfg", "MC_Channels_mpsc_walk.cfg"],
                   ["poll:value", "poll:pending", "poll:disconnected", "drop:last-sender", "poll:racing-send", "poll:racing-drop"],
                   "channels driven through the cfg(dust_dds_verif) re-export; every operation of the code is one critical section")
 
